@@ -317,6 +317,7 @@ fn run_l<L: Language + 'static>(c: &SatCase, obs: &mut Obs) -> Result<(), String
 
 fn strategy(lang: LangId) -> BoxedStrategy<SatCase> {
     let mut cfg = MixedCfg::for_lang(lang);
+    cfg.hist.namings = crate::tm::Naming::diverse();
     cfg.max_ops = 4;
     cfg.rewrite_p = 0;
     cfg.allow_extraction_subst = false;
